@@ -787,7 +787,9 @@ def option_partition(ctx: Ctx, rep: Report, rid: str = "R01.11") -> None:
     and log keywords by membership in LOGS only - every word lands in exactly one of the two lists, in the order it was
     written (value-carrying options such as `dscp af11` keep their order; a flag written after `log` is still a flag)."""
     rep.rule(rid)
-    f = ctx.func("Option.line.setter")
+    from .normalise import normalised
+
+    f = normalised(ctx, ctx.func("Option.line.setter"), "aliasif")
     param = f.params[1]
     senv = single_env_(f)
     cfg = ctx.cfg(f)
